@@ -62,28 +62,7 @@ type kase struct {
 	CheckAfter string   `json:"checkAfter"`
 }
 
-var defectText = map[string]string{
-	"unclosed-quote":       "put 'abc",
-	"unclosed-paren":       "put (put x",
-	"unclosed-list":        "put [p q",
-	"unclosed-brace":       "{ put x",
-	"bad-escape":           `put "\q"`,
-	"stray-paren":          "put x)",
-	"use-undeclared":       "put $u",
-	"set-undeclared":       "set u = 1",
-	"del-undeclared":       "del u",
-	"if-no-body":           "if $true",
-	"try-alone":            "try { put t }",
-	"try-else-no-catch":    "try { put t } else { put e }",
-	"var-qualified":        "var a:b = 1",
-	"tmp-top-level":        "tmp a = 1",
-	"del-non-local":        "{ del a }",
-	"fn-no-body":           "fn g",
-	"while-no-body":        "while $false",
-	"for-no-body":          "for x [p]",
-	"set-no-rhs":           "set a",
-	"use-undeclared-in-fn": "fn g { put $u }",
-}
+var defectText = elvcore.DefectText
 
 // concretise one abstract statement
 func (s stmt) text() string {
@@ -342,6 +321,9 @@ func run(c *lib.Ctx) error {
 		total += n
 	}
 	c.Set("bounds", bounds)
+	if err := validated(c); err != nil {
+		return err
+	}
 	c.AddTraces(total)
 	c.Set("exhaustive", true)
 	c.Set("cases_per_class", perClass)
